@@ -339,9 +339,9 @@ async fn wait_for(world: &World, limit: Duration, f: impl Fn(&EvKind) -> bool) -
     }
 }
 
-async fn session_main(sc: Scenario) -> Outcome {
+async fn session_main(sc: Scenario, d: Duration) -> Outcome {
     let far = sc.far();
-    let mut out = Outcome { d: mpd_client::verif_hooks::next_command_idle_timeout(), ..Default::default() };
+    let mut out = Outcome { d, ..Default::default() };
     let world = World::new(sc.world.clone());
     out.greeting_len = sc.world.greeting.len() as u64;
     {
@@ -562,9 +562,49 @@ async fn finish(world: &World, out: &mut Outcome, server: tokio::task::JoinHandl
     }
 }
 
+static REIDLE_DELAY: std::sync::OnceLock<Duration> = std::sync::OnceLock::new();
+
+/// The library's re-idle delay D, MEASURED at the boundary (not read from the code): one calibration
+/// session with a single request; D = virtual time between the complete delivery of its reply and the
+/// client's next `idle` line. Used to aim think times at the window boundary and as the base of the
+/// bounded-progress deadlines; if the client never re-idles the calibration falls back to 100 ms (and
+/// C05 reports the missing idle on its own).
+pub fn reidle_delay() -> Duration {
+    *REIDLE_DELAY.get_or_init(|| {
+        let mut sc = Scenario::new("calibration", 0xca11b);
+        sc.epilogue = false;
+        sc.callers = vec![(Duration::from_millis(20), vec![Step::Do(Req::Raw { shape: 0 })])];
+        // `run_session` calls `reidle_delay` through `session_main`; break the recursion with a provisional value
+        CALIBRATING.with(|c| c.set(true));
+        let out = run_session(&sc);
+        CALIBRATING.with(|c| c.set(false));
+        let mut reply_done: Option<u64> = None;
+        let mut reply_end: Option<u64> = None;
+        for e in &out.log {
+            match &e.kind {
+                EvKind::ServerWrote { kind: super::world::ReplyKind::Request, end, .. } => reply_end = Some(*end),
+                EvKind::ClientRead { upto } if reply_end.map(|x| *upto >= x).unwrap_or(false) && reply_done.is_none() => reply_done = Some(e.t),
+                EvKind::ClientWrote { bytes, .. } if bytes.starts_with(b"idle") => {
+                    if let Some(t0) = reply_done {
+                        return Duration::from_nanos(e.t - t0);
+                    }
+                }
+                _ => {}
+            }
+        }
+        Duration::from_millis(100)
+    })
+}
+
+thread_local! {
+    static CALIBRATING: std::cell::Cell<bool> = const { std::cell::Cell::new(false) };
+}
+
 /// Run one session to completion on a fresh current-thread runtime with paused time (or, for
 /// `realtime` scenarios, on a 4-worker multi-thread runtime in real time).
 pub fn run_session(sc: &Scenario) -> Outcome {
+    // measured outside any runtime (the calibration runs a session of its own)
+    let d = if CALIBRATING.with(|c| c.get()) { Duration::from_millis(100) } else { reidle_delay() };
     let rt = if sc.realtime {
         tokio::runtime::Builder::new_multi_thread().worker_threads(4).enable_time().build().expect("runtime")
     } else {
@@ -577,7 +617,7 @@ pub fn run_session(sc: &Scenario) -> Outcome {
     };
     let sc2 = sc.clone();
     let _ = panics::take_last();
-    let res = panics::catch(|| rt.block_on(session_main(sc2)));
+    let res = panics::catch(|| rt.block_on(session_main(sc2, d)));
     drop(rt);
     mpd_client::verif_hooks::set_sink(None);
     match res {
